@@ -172,6 +172,17 @@ CLAIMED = {
              "must be a sum of squares; mask converters dispatch on the sign of the radius. Resampling accuracy is not decided.",
         technique="operator-table rule over lambda bodies (ast), unit typing and affine forms by abstract interpretation, structural slot rules",
         ref="5 C19"),
+    "C20": dict(
+        text="Structural clauses of chunk-independent picking: unit typing proves the LoG/DoG widths and the ZNCC exclusion distance reach the "
+             "per-chunk worker in pixels and positions come back as (pos - depth) * scale; a halo-discipline rule on the map_overlap(trim=False) site "
+             "requires that the worker is handed the very depth given to dask, keeps only picks with d <= pos < size - d (positions, orientations and "
+             "features alike), adds the chunk start of the un-overlapped array and removes the depth exactly once; an affine-form proof shows the overlap "
+             "depth >= 4*sigma_filter + sigma_maxima for LoG and DoG and half-template + ceil(min_distance) for template matching; chunks without maxima "
+             "yield (0, 3) arrays; the template bank is rendered with the inverse of each searched rotation in quaternion order and the reported rotation "
+             "is read from the same array by the arg-max index; the ZNCC offset equals minus the landscape origin plus the template centre for all sizes. "
+             "Detection quality, thresholds and sub-pixel positions are not decided.",
+        technique="halo-discipline and same-source rules over ast, unit typing and affine normal forms (with inequality prover) by abstract interpretation",
+        ref="5 C20"),
 }
 
 NOT_APPLICABLE = {
